@@ -184,6 +184,19 @@ func (te *tableEngine) createPlayerGameAction(playerID string, playerIdx int, ac
 }
 
 func (te *tableEngine) batchAddPlayers(players []JoinPlayer) error {
+	// validate the whole batch before touching the seat manager: every player once, nobody
+	// who is already at the table, and no more players than empty seats
+	batchPlayerIDs := make(map[string]bool)
+	for _, p := range players {
+		if _, exist := batchPlayerIDs[p.PlayerID]; exist || te.table.FindPlayerIdx(p.PlayerID) != UnsetValue {
+			return seat_manager.ErrDuplicatePlayers
+		}
+		batchPlayerIDs[p.PlayerID] = true
+	}
+	if len(te.table.State.PlayerStates)+len(players) > te.table.Meta.TableMaxSeatCount {
+		return ErrTableNoEmptySeats
+	}
+
 	playerSeatIDs := make(map[string]int)
 	playerRandomSeatIDs := make([]string, 0)
 
@@ -204,6 +217,14 @@ func (te *tableEngine) batchAddPlayers(players []JoinPlayer) error {
 
 	if len(playerRandomSeatIDs) > 0 {
 		if err := te.sm.RandomAssignSeats(playerRandomSeatIDs); err != nil {
+			// give the fixed seats of this batch back
+			if len(playerSeatIDs) > 0 {
+				fixedPlayerIDs := make([]string, 0, len(playerSeatIDs))
+				for playerID := range playerSeatIDs {
+					fixedPlayerIDs = append(fixedPlayerIDs, playerID)
+				}
+				te.sm.RemoveSeats(fixedPlayerIDs)
+			}
 			return err
 		}
 	}
